@@ -166,6 +166,26 @@ func soilTempKernelStage(c *vh.Ctx, n int) {
 	}
 	saved := kept
 	c.Correspond("soiltemp.day", cases, impl, 1e-9, 1e-12, func(i int) interface{} { return saved[i] })
+	if nc := minI(len(saved), 800); nc > 0 && len(impl) == len(saved) { // the same cases in 8 goroutines at once
+		concurrentKernelStage(c, "soiltemp", impl[:nc], 8, 2, func(i int) string {
+			sc := saved[i]
+			o, _, pan := runSoilTempImpl(&sc)
+			if pan != "" {
+				return "panic " + pan
+			}
+			return o.line(&sc)
+		}, func(i int, got string) {
+			if i < 0 {
+				c.Violate("search", "soiltemp-kernel:concurrent:panic", "hermes.Soiltemp panics when several simulations run at the same time: "+got, nil)
+				return
+			}
+			sc := saved[i]
+			if o, _, _ := runSoilTempImpl(&sc); o.line(&sc) != impl[i] {
+				return
+			}
+			c.Violate("search", "soiltemp-kernel:concurrent:differs-from-sequential", fmt.Sprintf("hermes.Soiltemp on its own state gives another answer when other simulations call it at the same time (state shared between runs): sequential %.60s…, concurrent %.60s…", impl[i], got), sc)
+		})
+	}
 }
 
 // soilTempMonotone: comparison principle on the implementation (C19_day_monotone) — the same layers
